@@ -318,9 +318,12 @@ func PointIndexOK(point string) bool { panic("ghost") }
 //@ fold 0 invariant[acc] acc != nil
 //@ end
 
+// C12: the requests of one level are grouped by the service they go to and by nothing else (each
+// group costs one Queryer.Query call, see Execute$2); lo.PartitionBy makes one group per distinct key.
 //@ func (*DepthExecutor).Execute$1
 //@ props C09 C12
 //@ assumes x != nil
+//@ ensures[grouped-by-service] result == x.QueryPlanStep.URL @props C12
 //@ end
 
 //@ func (*DepthExecutor).Execute$2
